@@ -16,7 +16,9 @@ import (
 // the extra columns (schema difference between files). Files sit in several hour and day partitions under
 // db/measurement/YYYY/MM/DD/HH/. The rows of database prod are those of database default with v and n
 // shifted by 10 and the last row of every file dropped, so an answer computed over the wrong database can
-// never equal the right one.
+// never equal the right one. cpu and mem also hold hosts/notes that differ only in letter case ('Web-A', 'web-a',
+// 'WEB-A'), in a trailing blank ('web-a ') or a trailing character ('web-ab'), each with its own v and n, so
+// that the answer to a statement can never equal the answer to a near-identical statement (sequence families).
 
 type fileSpec struct {
 	Rel  string   // YYYY/MM/DD/HH/name.parquet
@@ -56,6 +58,12 @@ var measurements = []measSpec{
 		{Rel: "2024/03/14/00/cpu_c.parquet", Cols: cols("region VARCHAR", "ok BOOLEAN", "extra BIGINT"), Rows: [][]string{
 			{ts("2024-03-14 00:00:01"), "'a'", "'x'", "5", "6", "'eu'", "false", "1"},
 			{ts("2024-03-14 00:00:02"), "'d'", "'from'", "6", "7", "'ap'", "true", N},
+			// values that differ only in letter case, trailing blank or trailing character (sequence families)
+			{ts("2024-03-14 00:10:01"), "'Web-A'", "'Web-A'", "21", "31", "'eu'", "true", N},
+			{ts("2024-03-14 00:10:02"), "'web-a'", "'web-a'", "22", "32", "'eu'", "false", N},
+			{ts("2024-03-14 00:10:03"), "'WEB-A'", "'WEB-A'", "23", "33", "'us'", "true", N},
+			{ts("2024-03-14 00:10:04"), "'web-a '", "'web-a '", "24", "34", "'us'", N, N},
+			{ts("2024-03-14 00:10:05"), "'web-ab'", "'web-ab'", "25", "35", "'ap'", "true", N},
 			{ts("2024-03-14 00:00:04"), "'b'", "'q'", "7", "8", "'us'", "true", "3"},
 		}},
 	}},
@@ -73,6 +81,11 @@ var measurements = []measSpec{
 		{Rel: "2024/03/14/00/mem_c.parquet", Cols: cols(), Rows: [][]string{ // no column free
 			{ts("2024-03-14 00:00:01"), "'a'", "'x'", "5", "6"}, // equals a cpu row on the core columns
 			{ts("2024-03-14 00:00:03"), "'e'", "'w'", "7", "8"},
+			{ts("2024-03-14 00:20:01"), "'Web-A'", "'Web-A'", "41", "51"},
+			{ts("2024-03-14 00:20:02"), "'web-a'", "'web-a'", "42", "52"},
+			{ts("2024-03-14 00:20:03"), "'WEB-A'", "'WEB-A'", "43", "53"},
+			{ts("2024-03-14 00:20:04"), "'web-a '", "'web-a '", "44", "54"},
+			{ts("2024-03-14 00:20:05"), "'web-ab'", "'web-ab'", "45", "55"},
 			{ts("2024-03-14 00:00:05"), "'b'", "' b '", "8", "2"},
 		}},
 	}},
